@@ -4,6 +4,8 @@
    NuclideDirectory evaluated on the directory of the current state (Dir): whatever history of legal operations the
    factory runs, the directory it leaves behind is well formed.  TLC explores all histories up to MaxLevel exhaustively;
    every explored edge is replayed on the real constructors / functions inside a sandboxed copy of the module state.
+   Not modelled: imposeBurnChain (the burn chain is checked on the live table only), the MC2 file's shared "DUMMY" identifier
+   (reported by NuclideTable), natural abundances (data, not mechanism).
 
    State (one variable per module-level object; a nuclide object is an integer `oid', never reused):
      inst                 nuclideBases.instances                        sequence of oids
@@ -16,7 +18,7 @@
 
    Actions = public operations, transcribed:
      Add(c)          NuclideBase(element, a, weight, abundance, state, halflife)  ->  INuclide.__init__ -> addGlobalNuclide:
-                       name / database name / label already a key  =>  ValueError, nothing changed            (AddRefused)
+                       name / database name / label already a key  =>  ValueError, nothing changed        (disjunct Refusal)
                        else append to instances, byName, byDBName, byLabel, byMcnpId, byAAAZZZSId; Element.append
      AddNatural(z)   NaturalNuclideBase(symbol, element): name = label = symbol, byMcnpId "Z000", no AAAZZZS   (same refusal)
      AddSpecial(sp)  DummyNuclideBase / LumpNuclideBase: three name indices only                                (same refusal)
@@ -43,7 +45,6 @@ CONSTANTS Cand,        \* candidate isotopes   [z, a, s, ab]   (ab: abundance in
 
 VARIABLES inst, obj, byName, byDb, byLabel, byMcnp, byAzs, byMcc2, byMcc3v0, byMcc3v1, members, relabelled, stale, act, err,
           dir      \* = Dir, the directory record of the state (kept as a variable only so that TLC computes it once per state)
-idxvars == <<byName, byDb, byLabel, byMcnp, byAzs, byMcc2, byMcc3v0, byMcc3v1>>
 vars == <<inst, obj, byName, byDb, byLabel, byMcnp, byAzs, byMcc2, byMcc3v0, byMcc3v1, members, relabelled, stale>>
 
 Empty == [x \in {} |-> 0]
